@@ -189,3 +189,79 @@ Proof.
   destruct (crtp_header_fields port chan) as (E1 & E2 & E3). unfold crtp_port, crtp_chan in E2, E3.
   now rewrite E1, E2, E3.
 Qed.
+
+(* ================================================================ growth round: connect(), garbage between frames, checksum *)
+(* connect(): read bytes until 0xFF followed by 0x00, then answer 0xFF 0x00.  After 0xFF the next byte is taken as the
+   size whatever it is (also another 0xFF): 0xFF 0xFF 0x00 does NOT synchronise.  None: the scripted port ran dry. *)
+Fixpoint uart_connect (b : list Z) : option (list Z) :=
+  match b with
+  | [] => None
+  | x :: b1 =>
+      if x =? 255 then
+        match b1 with
+        | [] => None
+        | y :: b2 => if y =? 0 then Some b2 else uart_connect b2
+        end
+      else uart_connect b1
+  end.
+Definition uart_connect_reply : list Z := [255; 0].
+
+Lemma uart_connect_sync : forall g b, Forall (fun x => x <> 255) g -> uart_connect (g ++ 255 :: 0 :: b) = Some b.
+Proof.
+  induction g as [|x g IH]; intros b Hg; [reflexivity|].
+  inversion Hg as [|? ? Hx Hg']; subst. cbn [app uart_connect]. destruct (x =? 255) eqn:E; [lia|]. now apply IH.
+Qed.
+
+(* any frame-shaped bytes: the checksum byte is compared, a mismatch is only reported (printed), the packet is decoded
+   and handed on all the same *)
+Lemma uart_read_any_crc : forall w c rest lock, 0 < zlen w <= 255 ->
+  uart_read (255 :: zlen w :: w ++ c :: rest) lock =
+  (UPacket (set_wire w) (c =? xor_sum (255 :: zlen w :: w)), rest, lock).
+Proof.
+  intros w c rest lock Hw. cbn [uart_read]. rewrite Z.eqb_refl.
+  destruct (zlen w =? 0) eqn:E0; [lia|].
+  rewrite zlen_app, zlen_cons. pose proof (zlen_nonneg rest).
+  destruct (zlen w + (1 + zlen rest) <? zlen w + 1) eqn:E1; [lia|].
+  replace (Z.to_nat (zlen w)) with (length w) by (unfold zlen; lia).
+  rewrite firstn_app_exact, nth_app_exact, skipn_app_exact1. reflexivity.
+Qed.
+
+(* a frame cut short by the end of the port's data: nothing is delivered *)
+Lemma uart_read_truncated : forall w k lock, (k <= length w)%nat -> 0 < zlen w ->
+  fst (fst (uart_read (255 :: zlen w :: firstn k w) lock)) = UEnd.
+Proof.
+  intros w k lock Hk Hw. cbn [uart_read]. rewrite Z.eqb_refl.
+  destruct (zlen w =? 0) eqn:E0; [lia|].
+  assert (zlen (firstn k w) <= zlen w) by (unfold zlen; rewrite firstn_length; lia).
+  destruct (zlen (firstn k w) <? zlen w + 1) eqn:E1; [reflexivity|lia].
+Qed.
+
+(* valid frames with arbitrary line noise (no start byte 0xFF in it) before, between and after them *)
+Fixpoint uart_noisy (items : list (list Z * cpx)) (tail : list Z) : list Z :=
+  match items with
+  | [] => tail
+  | (g, p) :: r => g ++ uart_frame p ++ uart_noisy r tail
+  end.
+
+Lemma uart_read_noisy : forall items tail lock,
+  Forall (fun gp => Forall (fun x => x <> 255) (fst gp) /\ wf_cpx (snd gp) /\ zlen (c_data (snd gp)) <= 253) items ->
+  uart_read_n (length items) (uart_noisy items tail) lock =
+  (map (fun gp => UPacket (Ok (snd gp)) true) items, tail, lock).
+Proof.
+  induction items as [|[g p] items IH]; intros tail lock H; cbn [length map uart_noisy uart_read_n].
+  - reflexivity.
+  - inversion H as [|? ? (Hg & Hp & Hm) Hr]; subst. cbn [fst snd] in *.
+    rewrite uart_read_skip_noise by assumption. rewrite uart_read_frame by assumption.
+    rewrite IH by assumption. reflexivity.
+Qed.
+
+Lemma uart_noise_only_end : forall g lock, Forall (fun x => x <> 255) g -> fst (fst (uart_read g lock)) = UEnd.
+Proof.
+  intros g lock Hg. rewrite <- (app_nil_r g), uart_read_skip_noise by assumption. reflexivity.
+Qed.
+
+(* pyserial read(n) with timeout=None returns exactly the next n bytes however the UART delivered them (it loops like
+   _readData): the incoming side of UARTTransport is therefore independent of the fragmentation of the line *)
+Lemma serial_read_fragmentation_free : forall s n, 0 <= n <= zlen (concat s) ->
+  exists s', read_data n [] s = Some (firstn (Z.to_nat n) (concat s), s') /\ concat s' = skipn (Z.to_nat n) (concat s).
+Proof. intros s n H. destruct (read_data_some s n [] ltac:(lia)) as (s' & H1 & H2). exists s'. auto. Qed.
